@@ -381,41 +381,14 @@ def gen_doc(rng, feats=None, nblocks=None, bleed=None):
 
 
 # ======================================================================================================================
-# findings of this check that are reported to the maintainers of the framework (see the final report); until they
-# are listed in known_findings.json they are treated like listed open findings: counted, printed, not failing.
-PENDING = {
-    'c19:inline-svg-mutates-html-tree': 'drawing an inline <svg> renames mask/pattern/symbol elements of the caller\'s HTML tree; '
-                                        'the second render of the same HTML object loses the mask/pattern',
-    'c19:marks-layer-accumulates-on-rewrite': 'draw_background inserts the crop/cross marks layer into the page background at each '
-                                              'write: the same Document written twice gives different bytes',
-    'c19:image-cache-ignores-options': 'get_image_from_uri caches by URL only although the RasterImage depends on dpi / '
-                                       'optimize_images / jpeg_quality: a cache shared by renders with different options leaks them',
-    'c19:image-cache-dpi-overwrites-source': 'get_x_object replaces the cached source data by the down-sampled image (dpi option): '
-                                             'later renders sharing the cache embed the thumbnail; JPEG re-encoded at each render',
-    'c19:document-fonts-persist-across-writes': 'Document.fonts keeps subsetted Font objects: write_pdf(full_fonts=True) after a '
-                                                'default write embeds the subset',
-    'c19:copy-loses-html-for-pdfua': 'Document.copy() drops _html: copy().write_pdf(pdf_variant="pdf/ua-1") raises AttributeError',
-    'c19:attachment-dates-from-clock': 'URL attachments get datetime.now() as creation/modification dates: bytes differ between runs '
-                                       'although pdf_identifier and SOURCE_DATE_EPOCH are fixed',
-    'c19:flex-stretch-writeback-relayout': 'flex layout writes the stretched cross size into child.style: a container laid out twice '
-                                           '(pushed to the next page) distributes align-content:stretch space differently',
-    'c19:grid-stretch-writeback-relayout': 'grid layout writes stretched width/height into child.style: a grid laid out twice sizes '
-                                           'its auto tracks differently',
-    'c19:diskcache-del-removes-shared-folder': 'DiskCache.__del__ unlinks its files and removes the folder: two renders given the same '
-                                               'cache folder break each other (FileNotFoundError) when the first Document is collected',
-    'c19:form-font-size-ignores-zoom': 'add_forms computes the font size of field appearances as style[font_size] * 0.75: not multiplied by zoom',
-    'c19:bleedbox-cap-not-scaled': 'BleedBox is at most 10 points from the TrimBox whatever the zoom: it does not scale with zoom',
-}
-FOREIGN_KNOWN = {'c13:image-cache-ignores-orientation'}      # listed under another property: never re-reported here
+# listed under another property (F63, C13): the task says not to re-report it here; the cache stream still checks that
+# the implementation leaks exactly as the model says (bit 0 of cache_judge) and counts the hits.
+FOREIGN_KNOWN = {'c13:image-cache-ignores-orientation'}
 
 
 def report(run, what, data, signature):
-    """run.fail, except for findings already handed over (PENDING) or listed open under any property."""
-    listed = {k.get('signature') for k in common.load_known() if k.get('status') == 'open'}
-    mine = {k.get('signature') for k in run.known}
-    if signature in mine:
-        return run.fail(what, data, signature=signature)
-    if signature in listed or signature in PENDING or signature in FOREIGN_KNOWN:
+    """run.fail (open known findings of C19 are matched there by signature); F63 is only counted."""
+    if signature in FOREIGN_KNOWN:
         run.known_hits.append(({'signature': signature}, what))
         return False
     return run.fail(what, data, signature=signature)
@@ -579,8 +552,13 @@ def build_monitor(rng, ndocs, nhist, njobs):
     return docs, jobs, cases
 
 
-def repo_digest():
+def repo_state():
+    """HEAD and a hash of the uncommitted changes of the source tree under test (mtimes when it is not a git tree)."""
     import hashlib
+    rc1, head = common.sh(['git', '-C', common.REPO, 'rev-parse', 'HEAD'], timeout=60)
+    rc2, diff = common.sh(['git', '-C', common.REPO, 'diff', 'HEAD', '--', 'weasyprint'], timeout=60)
+    if rc1 == 0 and rc2 == 0:
+        return head.strip() + ':' + hashlib.sha1(diff.encode('utf-8', 'replace')).hexdigest()
     h = hashlib.sha1()
     for root, _, files in sorted(os.walk(os.path.join(common.REPO, 'weasyprint'))):
         for f in sorted(files):
@@ -590,16 +568,22 @@ def repo_digest():
     return h.hexdigest()
 
 
+def stable_batch(fn, attempts=3):
+    """Run a differential batch; the interpreters it compares must all have seen one source tree: when the tree changed
+    between start and end the batch is discarded and run again.  Returns (result, number of discarded batches)."""
+    discarded = 0
+    while True:
+        before = repo_state()
+        res = fn()
+        if repo_state() == before or discarded + 1 >= attempts:
+            return res, discarded
+        discarded += 1
+
+
 def stream_monitor(run, rng, ndocs, nhist, njobs):
     docs, jobs, cases = build_monitor(rng, ndocs, nhist, njobs)
     # the interpreters of one run must all see the same source tree: if /repo is edited meanwhile, run again (once)
-    reruns = 0
-    while True:
-        before = repo_digest()
-        outs = common.run_impl('impl_c19', 'spawn', cases, limit=700, chunksize=1)
-        if repo_digest() == before or reruns >= 2:
-            break
-        reruns += 1
+    outs, reruns = stable_batch(lambda: common.run_impl('impl_c19', 'spawn', cases, limit=700, chunksize=1))
     by_key, by_layout = {}, {}
     nsteps = 0
     seen = set()
@@ -637,7 +621,7 @@ def stream_monitor(run, rng, ndocs, nhist, njobs):
                 if obs.get('rewrite_same') is False:
                     report(run, 'the same Document written twice with the same options gives different bytes',
                            {'stream': 'monitor', 'clause': 'rewrite', 'job': case, 'where': where},
-                           'c19:marks-layer-accumulates-on-rewrite' if has_marks(doc) else 'c19:document-rewrite-differs')
+                           'c19:marks-layer-accumulates-on-rewrite' if obs.get('rewrite_same_without_marks') else 'c19:document-rewrite-differs')
                 if obs.get('ret_none') is False:
                     run.fail('write_pdf(target) returned a value', {'stream': 'monitor', 'clause': 'sink-return', 'job': case, 'where': where},
                              signature='c19:sink-return')
@@ -652,11 +636,6 @@ def stream_monitor(run, rng, ndocs, nhist, njobs):
                 groups = sorted(distinct.items(), key=lambda kv: -len(kv[1]))
                 a, b = groups[0][1][0], groups[1][1][0]
                 sig = 'c19:nondeterministic-%s' % clause
-                excs = [g for g in distinct if g[0] == 'exc']
-                if excs and all(g[1][-1:] == ('build_element_structure',) for g in excs) and \
-                        all(w['cfg'].get('copy_all') for g in excs for w in distinct[g]) and \
-                        not any(w['cfg'].get('copy_all') for g in distinct if g[0] != 'exc' for w in distinct[g]):
-                    sig = 'c19:copy-loses-html-for-pdfua'
                 report(run, '%s of one input differs between executions: key (doc %d, profile %d%s): %s [%s] vs %s [%s]' % (
                     clause, key[0], key[1], ', zoom %s' % key[2] if len(key) > 2 else '', str(groups[0][0])[:80], a, str(groups[1][0])[:80], b),
                     {'stream': 'monitor', 'clause': clause, 'key': list(key), 'a': a, 'b': b,
@@ -672,7 +651,7 @@ def stream_monitor(run, rng, ndocs, nhist, njobs):
         for f in d['feats']:
             feats[f] = feats.get(f, 0) + 1
     run.stream_info('monitor', documents=ndocs, histories=nhist, interpreters=len(jobs), renders=nsteps, keys=len(by_key),
-                    reruns_because_the_source_tree_changed=reruns,
+                    batches_discarded_because_the_source_tree_changed=reruns, source_tree=repo_state()[:20],
                     interpreter_crashes_retried=sum(len(o.get('crashes_before', [])) for st, o in outs if st == 'ok' and isinstance(o, dict)),
                     keys_observed_more_than_once=multi, configurations=len(seen), features=feats,
                     rule='random documents (grammar above) x 2 option profiles; every key rendered once in a fresh interpreter under two of '
@@ -778,6 +757,8 @@ def stream_cache(run, rng, n):
             if k == 'pure':
                 report(run, 'a cached image differs from the cold load although every URL has one variant and nothing is re-sampled',
                        {'stream': 'cache-direct', 'case': c, 'impl': o['obs']}, 'c19:cache-not-transparent')
+            elif m & 1:
+                pass        # not explained by the model: the broken correspondence obligation reports it
             elif 'resample' in k:
                 report(run, 'image cache: value differs from the cold load after a dpi down-sampling on the shared object',
                        {'stream': 'cache-direct', 'case': c}, 'c19:image-cache-dpi-overwrites-source')
@@ -854,7 +835,7 @@ def stream_names(run, rng, n):
                                                     'direct': {'fn': 'names_case', 'cases': cases}}} for s in range(4)]
     jobs += [{'hashseed': s, 'timeout': 300, 'job': {'docs': [], 'histories': [], 'module_snapshot': False,
                                                      'direct': {'fn': 'font_hashes', 'cases': font_docs}}} for s in range(4)]
-    outs = common.run_impl('impl_c19', 'spawn', jobs, limit=400, chunksize=1)
+    outs, discarded = stable_batch(lambda: common.run_impl('impl_c19', 'spawn', jobs, limit=400, chunksize=1))
     res = []
     for j, (st, o) in zip(jobs, outs):
         if st != 'ok' or o.get('crashed'):
@@ -902,7 +883,7 @@ def stream_names(run, rng, n):
         run.oblige('corr:names-direct', False, str(exc))
     orders = {json.dumps(o['set_orders']) for r in names_runs for st, o in r if st == 'ok' and 'set_orders' in o}
     run.count('names-direct', len(kept) * 4 + 4, [tuple(map(tuple, c['calls'])) for c, _ in kept], samples=[kept[1][0] if len(kept) > 1 else kept[0][0]])
-    run.stream_info('names-direct', hash_seeds=4, distinct_set_iteration_orders_seen=len(orders),
+    run.stream_info('names-direct', hash_seeds=4, batches_discarded_because_the_source_tree_changed=discarded, distinct_set_iteration_orders_seen=len(orders),
                     rule='1..25 random naming calls on real Stream objects (clones through add_group/add_pattern share the images '
                          'table), executed in 4 fresh interpreters with PYTHONHASHSEED 0..3: outputs identical, and equal to the model '
                          '(names_judge, Coq); fonts of a render with 4 families: hash/name identical under the 4 seeds')
@@ -1009,12 +990,12 @@ def same_ops(a, b, tol=2.5e-6):
 
 def resolve_rest(o):
     table = {}
-    for group in (o['fresh'], o['same_document']):
+    for group in (o['fresh'], o['same_document'], o.get('fresh_without_marks', [])):
         for g in group:
             for p in g['pages']:
                 if 'ops' in p['rest']:
                     table[p['rest']['id']] = p['rest']['ops']
-    for group in (o['fresh'], o['same_document']):
+    for group in (o['fresh'], o['same_document'], o.get('fresh_without_marks', [])):
         for g in group:
             for p in g['pages']:
                 p['rest_id'] = p['rest'].get('id', p['rest'].get('same_as'))
@@ -1080,13 +1061,15 @@ def stream_zoom_render_docs(run, docs):
                        {'stream': 'zoom-render', 'doc': d, 'zoom': z, 'clause': bad[0]}, 'c19:zoom:%s' % bad[0])
                 break
         # the same Document written at the six zooms: same content as the fresh renders
-        for z, g, f in zip(ZOOMS, o['same_document'], o['fresh']):
+        for z, g, f in zip(ZOOMS, o['same_document'], o.get('fresh_without_marks') or o['fresh']):
             if len(g['pages']) != len(f['pages']) or not all(pa['rest_id'] == pb['rest_id'] or same_ops(pa['rest'], pb['rest'])
                                                               for pa, pb in zip(g['pages'], f['pages'])):
                 report(run, 'one Document written at several zooms: page content differs from a fresh render at zoom %s' % z,
-                       {'stream': 'zoom-render', 'doc': d, 'zoom': z},
-                       'c19:marks-layer-accumulates-on-rewrite' if has_marks(d) else 'c19:document-rewrite-differs')
+                       {'stream': 'zoom-render', 'doc': d, 'zoom': z}, 'c19:document-rewrite-differs')
                 break
+        if o.get('marks_accumulate'):
+            report(run, 'a Document with crop/cross marks written twice gives different bytes (not so without the marks)',
+                   {'stream': 'zoom-render', 'doc': d}, 'c19:marks-layer-accumulates-on-rewrite')
     return nboxes, nannots
 
 
@@ -1126,7 +1109,10 @@ def stream_copy(run, rng, n):
             continue
         if not o['original_unchanged']:
             report(run, 'writing copies changed the original Document (bytes or layout)', {'stream': 'copy-render', 'doc': d},
-                   'c19:marks-layer-accumulates-on-rewrite' if has_marks(d) else 'c19:copy-changes-original')
+                   'c19:copy-changes-original')
+        if o.get('marks_effect'):
+            report(run, 'writing a copy changes what the original (with crop/cross marks) writes afterwards; not so without the marks',
+                   {'stream': 'copy-render', 'doc': d}, 'c19:marks-layer-accumulates-on-rewrite')
         for c in o['copies']:
             ncopies += 1
             if 'exc' in c:
@@ -1136,10 +1122,7 @@ def stream_copy(run, rng, n):
             want = [o['full'][i] for i in c['sel']]
             # dedupe: sel may name a page twice; npages == 0 -> sel == []
             if [tuple(map(repr, p)) for p in c['pages']] != [tuple(map(repr, p)) for p in want] or c['problems']:
-                if has_marks(d) and [p[0] for p in c['pages']] == [p[0] for p in want]:
-                    report(run, 'copy: page content differs from the full document (marks layer drawn once more)',
-                           {'stream': 'copy-render', 'doc': d, 'sel': c['sel']}, 'c19:marks-layer-accumulates-on-rewrite')
-                else:
+                if True:
                     run.fail('copy(pages).write_pdf does not output exactly the selected pages: sel %s, got %d pages' % (c['sel'], len(c['pages'])),
                              {'stream': 'copy-render', 'doc': d, 'sel': c['sel'], 'got': c['pages'], 'want': want}, signature='c19:copy-render')
     run.count('copy-render', ncopies, [('doc', i) for i in range(len(docs))])
@@ -1212,7 +1195,7 @@ def stream_relayout(run, rng, n):
         for (c, o), m in zip(kept, masks):
             if m & 2:
                 nd += 1
-                multi_definite = c['cross'] is not None and len(c['lines']) > 1
+                multi_definite = c['cross'] is not None and len(c['lines']) > 1 and not (m & 1)
                 report(run, 'a flex container laid out twice (pushed to the next page) differs from the same container laid out once',
                        {'stream': 'relayout', 'case': c, 'impl': o},
                        'c19:flex-stretch-writeback-relayout' if multi_definite else 'c19:relayout-differs')
@@ -1239,7 +1222,6 @@ PROBES = [
     ('cache-options', 'c19:image-cache-ignores-options', lambda o: any(o.values())),
     ('cache-dpi', 'c19:image-cache-dpi-overwrites-source', lambda o: o['warm_differs'] or o['jpeg_reencoded_each_render']),
     ('fonts-persist', 'c19:document-fonts-persist-across-writes', lambda o: o['full_fonts_after_default_write_differs']),
-    ('copy-pdfua', 'c19:copy-loses-html-for-pdfua', lambda o: o['raises']),
     ('attachment-clock', 'c19:attachment-dates-from-clock', lambda o: o['depends_on_clock']),
     ('diskcache', 'c19:diskcache-del-removes-shared-folder', lambda o: o['raises'] or not o.get('same', True)),
     ('form-zoom', 'c19:form-font-size-ignores-zoom', lambda o: o['font_not_scaled']),
@@ -1248,8 +1230,14 @@ PROBES = [
 
 
 def stream_probes(run):
-    outs = common.run_impl('impl_c19', 'probe', [{'name': p[0]} for p in PROBES], limit=120, chunksize=1)
+    outs = common.run_impl('impl_c19', 'probe', [{'name': p[0]} for p in PROBES] + [{'name': 'copy-pdfua'}], limit=120, chunksize=1)
     state = {}
+    st, o = outs[-1]      # fixed in 225043d: a copy can be written as PDF/UA, with the pages selected
+    if st != 'ok' or o['raises'] or not o.get('copy_ok'):
+        run.fail('Document.copy(pages).write_pdf(pdf_variant="pdf/ua-1") fails or does not output the selected page: %s' % (str(o)[:300],),
+                 {'stream': 'probes', 'probe': 'copy-pdfua', 'observed': o}, signature='c19:copy-loses-html-for-pdfua')
+    state['copy-pdfua'] = 'works' if st == 'ok' and not o['raises'] else 'fails'
+    outs = outs[:-1]
     for (name, sig, pred), (st, o) in zip(PROBES, outs):
         if st != 'ok':
             state[name] = 'probe failed: %s' % (str(o)[:200],)
@@ -1375,7 +1363,7 @@ def replay(data):
         return 1
     if st == 'probes':
         (s_, o), = common.run_impl('impl_c19', 'probe', [{'name': d['probe']}], limit=120)
-        pred = [p for p in PROBES if p[0] == d['probe']][0][2]
+        pred = ([p for p in PROBES if p[0] == d['probe']] or [(0, 0, lambda o: o['raises'] or not o.get('copy_ok'))])[0][2]
         print('replay:', s_, o)
         return 1 if s_ != 'ok' or pred(o) else 0
     print('nothing to replay for', st)
